@@ -255,10 +255,17 @@ class StatusMonitor:
 
         return progress, returncode
 
-    def compute_stage_status(self, stage, controller, completed=False):
-        # type: (experiment.model.data.Stage, experiment.runtime.control.Controller, bool) -> float
+    def compute_stage_status(self, stage, controller, completed=False, report=True):
+        # type: (experiment.model.data.Stage, experiment.runtime.control.Controller, bool, bool) -> float
+        """Computes the progress of @stage.
+
+        When @report is True the stage is the one the controller currently runs: it becomes the `current-stage` of the
+        status file and its progress the `stage-progress`. Stages which are merely in transit (they still have active
+        components, e.g. because they have not started yet) contribute to the total progress only.
+        """
         with self.mtx_compute_status:
-            self.statusFile.setCurrentStage(stage.name)
+            if report:
+                self.statusFile.setCurrentStage(stage.name)
 
             command = self.commands[stage.referenceName.lower()]
             progress = 0.0
@@ -276,7 +283,7 @@ class StatusMonitor:
                     progress = 0.0
 
             # Only update progress if the monitor program was successful
-            if returncode == 0:
+            if returncode == 0 and report:
                 self.statusFile.setStageProgress(progress)
 
         return progress
@@ -388,7 +395,7 @@ class StatusMonitor:
 
                 for stage_index in stages_in_transit:
                     cur_stage = self.experiment._stages[stage_index]
-                    active_stages[stage_index] = self.compute_stage_status(cur_stage, controller)
+                    active_stages[stage_index] = self.compute_stage_status(cur_stage, controller, report=False)
 
                 stage_status = 0.0
 
